@@ -20,6 +20,7 @@ mod l1;
 mod l10;
 mod l11;
 mod l12;
+mod l13;
 mod l2;
 mod l3;
 mod l4;
@@ -53,6 +54,7 @@ enum Layer {
     L10,
     L11,
     L12,
+    L13,
 }
 
 impl Layer {
@@ -72,6 +74,7 @@ impl Layer {
             Layer::L10 => "L10-type-expressions-of-every-arity-in-every-position",
             Layer::L11 => "L11-diagnostics-across-modules-with-multi-byte-headers",
             Layer::L12 => "L12-reference-graphs-among-constants-and-functions",
+            Layer::L13 => "L13-the-same-name-twice-in-every-kind-of-name-list",
         }
     }
     fn chunk(self) -> u64 {
@@ -89,12 +92,13 @@ impl Layer {
             Layer::L10 => 1000,
             Layer::L11 => 2000,
             Layer::L12 => 1000,
+            Layer::L13 => 500,
         }
     }
 }
 
-const ORDER: [Layer; 14] =
-    [Layer::L6, Layer::L9, Layer::L7, Layer::L8, Layer::L10, Layer::L11, Layer::L12, Layer::L1, Layer::L4, Layer::L5Mem, Layer::L5Disk, Layer::L2t, Layer::L2, Layer::L3];
+const ORDER: [Layer; 15] =
+    [Layer::L6, Layer::L9, Layer::L7, Layer::L8, Layer::L10, Layer::L11, Layer::L12, Layer::L13, Layer::L1, Layer::L4, Layer::L5Mem, Layer::L5Disk, Layer::L2t, Layer::L2, Layer::L3];
 
 struct Plan {
     l3: l3::Table,
@@ -122,6 +126,7 @@ fn plan(cfg: &Cfg) -> Plan {
             Layer::L10 => l10::count(cfg),
             Layer::L11 => l11::count(cfg),
             Layer::L12 => l12::count(cfg),
+            Layer::L13 => l13::count(cfg),
         };
         counts.push((l, n));
         let mut lo = 0;
@@ -152,6 +157,7 @@ fn build(cfg: &Cfg, p: &Plan, layer: Layer, idx: u64) -> (Option<Input>, Value) 
         Layer::L10 => some(l10::case(cfg, idx)),
         Layer::L11 => some(l11::case(cfg, idx)),
         Layer::L12 => some(l12::case(cfg, idx)),
+        Layer::L13 => some(l13::case(cfg, idx)),
     }
 }
 
@@ -481,6 +487,7 @@ impl Check for C06 {
                 "L10": l10::bounds(cfg),
                 "L11": l11::bounds(cfg),
                 "L12": l12::bounds(cfg),
+                "L13": l13::bounds(cfg),
             }),
             states_are: "distinct inputs (source texts / module trees); distinct inside each unit, enumeration indices are distinct across units".into(),
             transitions_are: "runs of FileTree::compile (+ RotoReport::write twice and the location check on Err)".into(),
